@@ -497,6 +497,11 @@ class Interp:
         d = {}
         for k, v in zip(e.keys, e.values):
             if k is None:
+                # {**a, **b}: the entries of a known dict value
+                vv = self.ev(v, env)
+                if isinstance(vv, DictV):
+                    d.update(vv.d)
+                    continue
                 return U(self.src(e))
             kv = self.ev(k, env)
             key = kv.v if isinstance(kv, K) else self.label(kv)
